@@ -50,6 +50,39 @@ def run(ctx, prop="C13", props=PROPS, field_filter=None, checkers=("none", "byte
     cov = {"evaluations": len(res), "distinct_nontrivial": nontriv,
            "rule": "exhaustive matrix: write side {none, plain, sharded} x read-only levels {0,1,2%s} plain/sharded x each level {absent, A, B} x checker %s x {get, touch, set, put, get_or_update x {Accept, Promote, Replace} x populate {value P, value A, NotFound, other error}} plus ensure/set_temp_file/put_temp_file, plus targeted additions in both tiers: three read-only levels with a gap between two copies, and entries living in the secondary shard of a sharded level looked up through a fresh handle; each point run on the implementation and on the model (results, snapshots, call traces) and judged against the extracted abstract specification. Non-trivial = >=2 levels hold the key, or Promote/Replace, or populate fails." % ("" if ctx.quick() else ",3", list(checkers)),
            "samples": samples, "traces_validated_against_impl": agree, "exhaustive": True}
+    if prop == "C13":
+        # "Replace stores the newly populated value in the write cache and returns it" - also when
+        # another writer publishes the same key while populate runs: every single context switch
+        # of {get_or_update/Replace on a read-only-level hit | set, get} (real processes, gate mode)
+        from . import conc as K, gen as G2
+        rfams = []
+        for kind in ("plain", "sharded"):
+            w = ("plain", 300) if kind == "plain" else ("sharded", 4, 1200)
+            kp = G2.key_path(w, "w", K.KEY)
+            cfgr = G2.header(w, (("plain",),), "none")
+            setup = list(cfgr) + ["mkdir " + kp.rsplit("/", 1)[0], G2.plant("r0/" + K.KEY[0], "R0R0R0")]
+            GR = G2.op(0, "gou", K.KEY, "replace", 0, "val:%s:2" % K.BIG2)
+            rfams.append({"name": kind + ":replace-secondary-vs-set", "kind": kind, "w": w, "cfg": cfgr, "setup": setup, "fire": None,
+                          "parts": [[GR], [G2.op(0, "set", K.KEY, K.BIG1, 3), G2.op(0, "get", K.KEY)]],
+                          "values": {K.fnv_show(v) for v in (K.BIG1, K.BIG2, "R0R0R0")}})
+        sres = K.explore(ctx, fams=rfams)
+        for fam, skind, plan, cr, sdiffs, obs, ml in sres:
+            if sdiffs:
+                ties.append({"what": "model (Conc/Pool.v) and implementation disagree on the same schedule", "case": {"family": fam["name"], "schedule_kind": skind}, "detail": sdiffs[:3]})
+            else:
+                agree += 1
+            if cr is None:
+                continue
+            for h in K.history(cr):
+                if h["p"] == 0 and h["result"]:
+                    cls, d = S.fields(h["result"])
+                    if cls == "OkSome" and d.get("content") != K.fnv_show(K.BIG2):
+                        violations.append({"what": "get_or_update with a Replace verdict returned %s, not the value it populated (%s), when another writer published the key meanwhile" % (d.get("content"), K.fnv_show(K.BIG2)),
+                                           "classification": {"kind": "replace-returns-other", "front": fam["kind"]},
+                                           "replay": {"kind": "schedule", "family": fam["name"], "setup": fam["setup"], "participants": K.part_lines(fam), "schedule": K.schedule_text(cr), "raw_schedule": K.schedule_raw(cr)}})
+        cov["evaluations"] += len(sres)
+        cov["real_schedules_explored"] = len(sres)
+        cov["rule"] += " In addition every single context-switch schedule of {get_or_update/Replace on a read-only-level hit | set, get} on one key: the Replace returns the value it populated."
     if not ctx.quick():
         rc, o = C.coqchk(props)
         cov["coqchk"] = o[-600:]
